@@ -367,13 +367,59 @@ def o_c10(scn, obs, runner):
 
 
 # ---------------------------------------------------------------------------------------------------------------
+def host_view_log(c):
+    """The packet sequence as the HOST experiences it: a host packet counts when its last byte was accepted by the transport, a device
+    packet when its last byte was returned by a read (reconstructed from the transport call log)."""
+    inbound = b"".join(raw for need, raw in c.segs)
+    outbound = bytes(c.peer_got)
+    log = []
+    ipos = opos = 0          # bytes consumed so far
+    inext = onext = 0        # start offset of the packet being completed
+
+    def frame_end(buf, start):
+        if start + 24 > len(buf):
+            return None
+        return start + 24 + int.from_bytes(buf[start + 12:start + 16], "little")
+    for call in c.calls:
+        if call[0] == "r" and isinstance(call[2], int):
+            ipos += call[2]
+            while True:
+                e = frame_end(inbound, inext)
+                if e is None or e > ipos:
+                    break
+                h = inbound[inext:inext + 24]
+                log.append(("dev", bytes(h[0:4]), int.from_bytes(h[4:8], "little"), int.from_bytes(h[8:12], "little"), inbound[inext + 24:e]))
+                inext = e
+        elif call[0] == "w" and isinstance(call[2], int):
+            opos += call[2]
+            while True:
+                e = frame_end(outbound, onext)
+                if e is None or e > opos:
+                    break
+                h = outbound[onext:onext + 24]
+                log.append(("host", bytes(h[0:4]), int.from_bytes(h[4:8], "little"), int.from_bytes(h[8:12], "little"), outbound[onext + 24:e]))
+                onext = e
+    return log
+
+
 def o_c04(scn, obs, runner):
-    """Per-stream protocol monitor over the simulator's ordered packet log (host and device packets in arrival order)."""
+    """Per-stream protocol monitor over the ordered packet log, from the DEVICE's viewpoint (arrival order at the simulator) and from the
+    HOST's viewpoint (a device packet counts only once the host has read it)."""
     fails = []
     for ci, c in enumerate(runner.link.used):
+        clean = not c.env.get("faults") and getattr(c.sim, "corrupted", None) is None
+        views = [("device view", c.sim.log)] + ([("host view", host_view_log(c))] if clean else [])
+        for view, plog in views:
+            fails += ["%s: %s" % (view, f) for f in _monitor(plog)]
+    return [dict(op=None, why=f) for f in fails]
+
+
+def _monitor(plog):
+    fails = []
+    if True:
         streams = {}          # local id -> state dict
         used_ids = set()
-        for who, cmd, a0, a1, d in c.sim.log:
+        for who, cmd, a0, a1, d in plog:
             if who == "host":
                 if cmd == b"OPEN":
                     if a0 == 0 or a0 >= 2 ** 32 or a1 != 0 or not d.endswith(b"\0"):
@@ -417,10 +463,7 @@ def o_c04(scn, obs, runner):
                         st["dev_closed"] = True
                         if st["host_closed"]:
                             st["done"] = True
-        # end of connection: a delivered device WRTE must have been acknowledged unless the operation failed / device went on bursting
-        for f in fails:
-            pass
-    return [dict(op=None, why=f) for f in fails]
+    return fails
 
 
 def o_c04_okays(scn, obs, runner):
@@ -530,10 +573,13 @@ def o_c10_expect(scn, obs, runner):
         if not exp:
             continue
         kind, msg = exp
-        o = obs[-1]
+        idx = [i for i, op in enumerate(scn["ops"]) if op["op"] in ("pull", "push", "stat", "list")]
+        if not idx:
+            continue
+        o = obs[idx[-1]]
         want = "err " + kind + ((":" + hx(py_decode(msg).encode("utf8"))) if msg is not None else "")
         if o["res"] != want:
-            fails.append(dict(op=len(obs) - 1, why="%s: device sent an invalid/FAIL record (%s); result %s, expected %s" % (scn["ops"][-1]["op"], scn.get("failkind"), o["res"][:80], want[:80])))
+            fails.append(dict(op=idx[-1], why="%s: device sent an invalid/FAIL record (%s); result %s, expected %s" % (scn["ops"][idx[-1]]["op"], scn.get("failkind"), o["res"][:80], want[:80])))
     return fails
 
 
